@@ -29,7 +29,7 @@ def compiled_ini_path(run):
 def run_life(run, lib, script, tag, fault=None, trace=False, timeout=120, extra_env=None, prod=False):
     """prod: the library reads its COMPILED-IN configuration path (served from the run's snoopy.ini by libfaultlite's fopen redirection) and the
     test hook for an alternative path is shadowed: the production branch of the configuration ctor runs"""
-    env = {"LD_PRELOAD": " ".join([ALLOC, FAULT, lib, RECORDER]), "VERIF_ALLOC_OBJ": os.path.basename(lib), "VERIF_FAULT_OBJ": os.path.basename(lib)}
+    env = {"LD_PRELOAD": " ".join([ALLOC, FAULT, lib, RECORDER]), "VERIF_ALLOC_OBJ": os.path.basename(lib), "VERIF_FAULT_OBJ": os.path.basename(lib), "VERIF_ALLOC_QUARANTINE": "1"}
     if fault:
         env["VERIF_FAULT"] = fault
     if trace:
@@ -54,7 +54,7 @@ def run_lifemt(run, lib, tag, rounds, order, extra_ini=b"", timeout=120):
     open(ini, "wb").write(b"[snoopy]\noutput = file:" + os.path.join(d, "gate.log").encode() + b"\n" + extra_ini)
     if os.path.exists(rec):
         os.unlink(rec)
-    env = {"PATH": "/usr/bin:/bin", "HOME": "/root", "LD_PRELOAD": " ".join([ALLOC, lib, LIFEGATE]), "VERIF_ALLOC_OBJ": os.path.basename(lib)}
+    env = {"PATH": "/usr/bin:/bin", "HOME": "/root", "LD_PRELOAD": " ".join([ALLOC, lib, LIFEGATE]), "VERIF_ALLOC_OBJ": os.path.basename(lib), "VERIF_ALLOC_QUARANTINE": "1"}
     try:
         p = subprocess.run([LIFEMT, rec, ini, str(rounds), order], env=env, cwd=d, timeout=timeout, stdin=subprocess.DEVNULL, stdout=subprocess.PIPE, stderr=subprocess.PIPE)
         status, err = p.returncode, p.stderr.decode(errors="replace")
